@@ -38,10 +38,12 @@ CHECKS = {
              'exact table facts (T); frame obligations; run-time contract over exhaustive small scope and nesting generators (bounded)',
              'D: BaseParser.parse / _add_token / _pop / Parser.error_recovery (strict, recovering, closure current_suite) / '
              '_stack_removal raise no IndexError, KeyError, AttributeError, UnboundLocalError and keep the stack well formed; parse '
-             'returns a node; frames of all of them cover the real writes; T: no nullable rule, ENDMARKER only in start rules, '
-             'ERRORTOKEN/ERROR_DEDENT in no rule, suite shape, table shape, for all 9 grammars; ' + _B + ' plus nesting up to depth '
+             'returns a node; frames of all of them cover the real writes; Parser.convert_node and the node constructors it reaches incl. '
+                'Function.__init__ / Function._find_parameters / Lambda.__init__ (total on a funcdef / lambdef production); T: no nullable rule, ENDMARKER only in start rules, '
+             'ERRORTOKEN/ERROR_DEDENT in no rule, suite shape, funcdef shape, table shape, for all 9 grammars; ' + _B + ' plus nesting up to depth '
              '100 under the default recursion limit',
-             'convert_node (dynamic class lookup) assumed; per-iteration assumptions of parse and caller-side preconditions of '
+             '_create_params is the one assumed callee of the constructors; the grammar-shape preconditions of convert_node (suite, funcdef) are '
+                'T facts the dispatch site does not establish (I_stack not proved); per-iteration assumptions of parse and caller-side preconditions of '
              'error_recovery are listed in the evidence; termination of the error_recovery/_add_token recursion not proved; '
              'tokenizer and Grammar._parse not under contract; A-REC'),
     'C03': C('4 C03', 'VCs of every end_pos/start_pos implementation against one spec function, discharged by z3; regex class '
@@ -82,18 +84,20 @@ CHECKS = {
              'leniency branch, dedent filter armed only when recovering, error objects constructed only in '
              'error_recovery/_stack_removal, token filter is the identity while the filter is empty; ' + _B,
              'M-2RUN self-composition step is a paper argument'),
-    'C08': C('4 C08', 'exact certificates on all rules/states/transitions of all shipped grammars (T) + enumerated small EBNF grammars (bounded)',
+    'C08': C('4 C08', 'exact certificates on all rules/states/transitions of all shipped grammars (T) + VCs of the generator\'s state helpers (z3, enumerated dict iteration) + enumerated small EBNF grammars (bounded)',
              'T: language equivalence with an independent Thompson NFA per rule, subset-construction and simplification '
-             'certificates, FIRST-exact transitions with push chains, reserved strings, LL(1)/left-recursion facts; B: every '
-             '2-rule grammar up to 3 symbol occurrences (thorough: larger symbol set, plus 4 occurrences over 3 symbols, 1.9 million '
+             'certificates, FIRST-exact transitions with push chains, reserved strings, LL(1)/left-recursion facts; D: DFAState.__eq__ is exactly '
+                'the equivalence _simplify_dfas merges by, unifystate redirects exactly the arcs of the merged state, add_arc never overwrites; B: every '
+             '2-rule grammar up to 3 symbol occurrences over a symbol set with two spellings of one terminal (thorough: larger symbol set, plus 4 occurrences over 3 symbols, 1.9 million '
              'grammars): rejected iff not LL(1), else certificates',
-             'graph algorithms themselves not proved (certificate route); M-SUBSET'),
+             'graph algorithms themselves (_make_dfas, _simplify_dfas, _calculate_tree_traversal) not proved (certificate route); M-SUBSET; a rule defined twice is outside the statement'),
     'C09': C('4 C09', 'RegLan obligations on the live patterns (z3) + VCs of PrefixPart and of the f-string / illegal-name helpers; bounded token-stream contract',
              'D: dispatch facts of the pseudo-token pattern (9 versions), part invariants and totality of the prefix re-lexer '
              '(refuted: known finding), PrefixPart positions, split_prefix tiles the prefix (match totality assumed = the known '
              'finding), dedent_if_necessary keeps the indentation stack strictly increasing (one DEDENT per level), FStringNode '
-             'bookkeeping, _close_fstring_if_necessary (prefix purity + tiling), _find_fstring_string, _split_illegal_unicode_name; ' + _B,
-             'tokenize_lines main loop (tiling/balance/positions) bounded only'),
+             'bookkeeping (never more open format specs than open braces), _close_fstring_if_necessary (prefix purity + tiling), _find_fstring_string, _split_illegal_unicode_name; ' + _B,
+             'tokenize_lines main loop (tiling/balance/positions) bounded only: its totality contract discharges 173 of 180 obligations through '
+                'the string abstraction back end within the path budget and is not registered'),
     'C10': C('4 C10', 'RegLan equivalence of lexeme classes with the running CPython\'s tokenize regex grammar; bounded stream comparison with the '
              'tokenizers of CPython 3.6-3.13 (interpreters of ~/.pyenv/versions, one reference process per version)',
              'D: Number/Comment/ASCII-name languages equal, operators covered, maximal munch, string prefixes, 9 versions; '
@@ -102,7 +106,7 @@ CHECKS = {
              'them that far); quick: exhaustive scope on 3.6, 3.8, 3.12 and random programs on 3.6-3.13, thorough: all 8',
              'no CPython 3.14 in the sandbox: 3.14 only through the D obligations; before 3.12 the reference is the pure-Python '
              'tokenize module (programs on which it reports ERRORTOKEN, and for 3.9-3.11 a blank line after a backslash continuation, '
-             'are not compared); an f-string is compared from the inside only for 3.12+; a version whose interpreter is missing is counted in '
+             'are not compared; programs with form feeds are compared since the exclusion hid a divergence); an f-string is compared from the inside only for 3.12+; a version whose interpreter is missing is counted in '
              'the evidence (pred_stats), not compared'),
     'C11': C('4 C11', 'VCs over a heap model with ghost in-order leaf numbering, discharged by z3; bounded monitor',
              'D: get_root_node, next/previous sibling, next/previous leaf, first/last leaf (all overrides), search_ancestor, '
@@ -112,28 +116,33 @@ CHECKS = {
     'C13': C('4 C13', 'effect obligations (tree unchanged, no shared writes), class-table obligations on the rule registry, VCs of issue construction and of the per-line table; bounded contract of iter_errors',
              'D: no function reachable from iter_errors stores to a tree field or shared state; ErrorFinder.add_issue keeps the first issue '
              'of a line and touches no other line; visit_leaf files an issue for the line of every (non-indentation) error leaf; '
-             '_add_syntax_error / _add_indentation_error, Issue.__init__; T: all 31 registered rule classes carry code 901/903 with the '
+             '_add_syntax_error / _add_indentation_error, Issue.__init__; coverage of error nodes: Rule.feed_node -> _InvalidSyntaxRule.is_issue / '
+                'get_node -> Rule.add_issue -> SyntaxRule._get_message -> ErrorFinder.add_issue files an issue for the line of the token '
+                'following the error node (own line in the f-string variant, unless that token is an error leaf); T: all 31 registered rule classes carry code 901/903 with the '
              'matching message prefix, call-site signature; ' + _B + ' (codes, ranges, one per line, coverage of error leaves/nodes, determinism)',
-             'totality of the rule classes on recovered trees is bounded only; contracts are for an object that is exactly an ErrorFinder; '
+             'totality of the rule classes on recovered trees is bounded only; the dispatch from visit_node to the rule (registry lookup) and '
+                '_any_fstring_error are assumed; contracts are for an object that is exactly an ErrorFinder; '
              'known findings: f-string error node line, crashes on some recovered trees'),
     'C15': C('4 C15', 'RegLan equivalence of the coding-cookie search with PEP 263 (tokenize.cookie_re/blank_re); VCs of the codec choice for bytes input (z3); exhaustive bounded check of split_lines and decoding',
              'D: parso finds a declaration exactly in the sources where CPython does; python_bytes_to_unicode / detect_encoding: BOM first, '
-             'then the declaration, then the default; unknown codec falls back to UTF-8 only under errors=replace, else LookupError '
+             'then the declaration (normalised like CPython\'s get_normal_name), then the default; unknown codec falls back to UTF-8 only under errors=replace, else LookupError '
              '(codec machinery uninterpreted, the regex\'s meaning imported from the RegLan obligations); B: split_lines on all strings '
-             '<=4/5 over 13 separator characters, decoding vs tokenize.detect_encoding on all <=4/5 atom byte strings',
-             'split_lines proof not reached (exhaustive bounded instead); str(bytes, enc) trusted'),
+             '<=4/5 over 13 separator characters, decoding vs tokenize.detect_encoding on all <=4/5 atom byte strings, structured two-line '
+                'sources and every alias of the codec registry with spelling variants and end-of-line suffixes',
+             'split_lines proof not reached (exhaustive bounded instead); str(bytes, enc) and _get_normal_name (str.lower / replace) assumed'),
     'C16': C('4 C16', 'VCs of the cache functions over a ghost environment (mtime / content version / ghost file system), discharged by z3; '
              'model-free history enumeration with the contract as monitor (bounded), logical clock environment',
              'D: _set_cache_item stores under exactly (grammar, path), GC only removes; load_module serves a memory entry only if '
-             'it is the tree of the version at the mtime observed now; _load_from_file_system serves a pickle only if it is not '
-             'older than the source and unpickles to a cache item (assumed contracts of os.path.getmtime/open/pickle.load); '
+             'it is the tree of the version at the mtime observed now; _load_from_file_system serves a pickled item only if the modification '
+             'time recorded in it is not older than the source\'s and it unpickles to a cache item (assumed contracts of os.path.getmtime/open/pickle.load); '
              'Grammar.parse: whichever branch serves the request the module handed back is the tree of the text read (tv ghost), every '
              'save files the module with the lines it is the tree of under this grammar\'s hash, and the memory cache keeps that '
              'invariant (parser / tokenizer / diff parser through assumed contracts stating C01 / C09 / C04); B: all '
-             'histories <=3 (quick) over write/touch/parse x3/drop/delete/race x files x grammars x cache dirs + structured 6-step '
-             'histories, GC trigger at 600 and 1: tree equals fresh parse of current content',
+             'histories <=3 (quick) over write/touch/back-dated write/parse x3/drop/delete/race x files x grammars x cache dirs + structured 6-step '
+             'histories (incl. two paths whose spellings a lexical normalisation would identify), GC trigger at 600 and 1: tree equals fresh parse of current content',
              'that try_to_save_module establishes the representation invariants is not proved (memory: known finding read-then-stat '
-             'race; disk: DISK-INV assumed)'),
+             'race; disk: DISK-INV -- a pickled item is the tree of the version at its recorded change_time -- assumed of the writer); '
+                '_get_hashed_path (A-SHA) assumed'),
     'C17': C('4 C17', 'VCs of the disk load, the save and the cache maintenance over a ghost file system (file contents as a ghost heap array, '
              'access times, a clock), discharged by z3; exception-effect (raises) inclusion over the call graph with trusted primitive raise sets; '
              'corruption and fault enumeration (bounded)',
@@ -162,9 +171,11 @@ CHECKS = {
              '_format_dump text bounded only; Normalizer.walk / Grammar.refactor wrappers not under contract'),
     'C20': C('4 C20', 'effect obligations (tree unchanged), call-site signature contract, VCs of issue equality and de-duplication; bounded contract of the PEP 8 normalizer',
              'D: no function reachable from _get_normalizer_issues stores to a tree field; all 46 add_issue call sites pass '
-             '(node, int, str); VCs: Issue.__eq__, Normalizer.add_issue never records a (code, position) pair twice, '
-             'PrefixPart positions; ' + _B + ' with 3 configurations (totality, ranges, duplicates, stability across calls and '
+             '(node, int, str); VCs: Issue.__eq__, Normalizer.add_issue never records a (code, position) pair twice and does record the issue, '
+             'PrefixPart positions; 292 is exact: PEP8Normalizer._visit_node on the root records it <=> the ghost text does not end in a '
+             'line break (through PEP8Normalizer.add_issue for a node under the root before any leaf was visited); ' + _B + ' with 3 configurations (totality, ranges, duplicates, stability across calls and '
              'pickling, E292 exactness)',
-             'nullability of the visitor\'s indentation stack is not proved; known findings: not total on recovered trees, with a tab '
+             'nullability of the visitor\'s indentation stack is not proved; the 292 VC assumes the leaf-adjacency lemma of the tile theory and '
+                'that a token ending in a line break is a NEWLINE; known findings: not total on recovered trees, with a tab '
              'indentation config, and at 7 sites on clean trees'),
 }
